@@ -13,7 +13,8 @@ def derive_seed(verif_seed, prop, tier, i):
     return int.from_bytes(h[:8], "big") >> 1
 
 
-KEYS = [None, 0, 1, 2, 3, 5, 42, 12345, 2**32 - 2]
+KEYS = [None, 0, 1, 2, 3, 5, 42, 12345, 2**32 - 2, 2**32 - 1]
+BIG_KEYS = [2**32, 2**32 + 1, 2**33 + 5, 2**64 + 3]  # fine for the hash chain (Hutchinson), not for direct draws
 DTYPES = ["f8", "f8", "f8", "f4", "c16"]
 
 
@@ -199,6 +200,8 @@ def c17_call(g, cfg, slot, fl):
             kw["pbar"] = True
         return kw
 
+    if fn in ("hutch", "diag_hutch", "trace_hutch") and g.random() < 0.1:
+        key = g.choice(BIG_KEYS)
     if fn in ("hutch", "diag_hutch"):
         a.update(hutch_kw())
         a["k"] = g.choice([0, 0, 0, 1, -1, 2, -2, max(n - 1, 0), -max(n - 1, 0)])
@@ -621,4 +624,49 @@ def matrix_programs_c17():
                                                        kname, key),
                             "program": {"property": "C17", "run_seed": 0, "rng0": 3, "config": {"matrix": [fn, kname, str(key)]},
                                         "mode": "explicit", "steps": steps}})
+    return out
+
+
+# ------------------------------------------------------------------------------------------
+# Key-interaction programs (C17): every ordered pair of special key values on one operator (Hutchinson walks the hash
+# chain; the others seed the draw directly).  Together with the single-key programs and the cross-history result
+# table, a key whose result depends on which other key was used before it is reported.
+SPECIAL_KEYS = [None, 0, 1, 42, 2**31, 2**32 - 2, 2**32 - 1, 2**32, 2**32 + 1, 2**64 + 3]
+
+
+def key_programs_c17():
+    out = []
+    G = {"k": "ann", "name": "PSD", "of": {"k": "generic", "n": 4, "dtype": "f8", "seed": 99, "sym": "psd"}}
+
+    def hutch(key):
+        a = {"A": {"slot": "G"}, "tol": 0.2, "max_iters": 2, "k": 0}
+        if key is not None:
+            a["key"] = key
+        return {"op": "call", "fn": "hutch", "args": a}
+
+    def direct(fn, key):
+        a = {"A": {"slot": "G"}, "max_iters": 2} if fn != "power_iteration" else {"A": {"slot": "G"}, "max_iter": 2}
+        if key is not None:
+            a["key"] = key
+        return {"op": "call", "fn": fn, "args": a}
+
+    def add(name, calls):
+        steps = [{"op": "make", "slot": "G", "recipe": G}] + calls
+        for j, s in enumerate(steps):
+            s["id"] = j
+        out.append({"name": name, "program": {"property": "C17", "run_seed": 0, "rng0": 3, "config": {"keys": name},
+                                              "mode": "explicit", "steps": steps}})
+
+    for k1 in SPECIAL_KEYS:
+        add("hutch/%s" % k1, [hutch(k1)])
+        for k2 in SPECIAL_KEYS:
+            if k1 != k2:
+                add("hutch/%s,%s" % (k1, k2), [hutch(k1), hutch(k2)])
+    small = [k for k in SPECIAL_KEYS if k is None or k < 2**32]
+    for fn in ("lanczos", "arnoldi", "power_iteration"):
+        for k1 in small:
+            add("%s/%s" % (fn, k1), [direct(fn, k1)])
+            for k2 in small:
+                if k1 != k2:
+                    add("%s/%s,%s" % (fn, k1, k2), [direct(fn, k1), direct(fn, k2)])
     return out
